@@ -1,7 +1,7 @@
 (* C02 — executable checkers run on what the implementation did.
    *_model_ok : the model computes what the implementation computed (correspondence)
    *_prop_ok  : the implementation's own output satisfies the property (oracle) *)
-From G02 Require Export Client.
+From G02 Require Export Client Relay.
 (* configured response-header rules: C16's model of header/header.go, imported read-only
    (its meaning is T16_apply_is_spec); qualified names only, G16.Model is not imported *)
 Require G16.Model.
@@ -371,6 +371,80 @@ Definition wcase_prop_ok (c : wcase) : bool :=
                      end) (r_trailer r) &&
   (negb ((r_major r =? 1) && (r_minor r =? 1) && (r_cl r =? -1)%Z && negb (rfc_no_body (w_meth c) (r_code r))) ||
    list_bool_eqb (map nonempty (w_writes c)) (w_flags c)).
+
+(* ---------------------------------------------------------------- (d) what is on the connection at every read *)
+(* Response.Write behind the REAL pattern writer over a REAL bufio.Writer of capacity d_cap over a
+   recording connection.  Observed: the Write calls on the connection (d_conn, after the final
+   Flush) and, each time the copy loop asks the body for more data, how many of them had been
+   made (d_snaps) — i.e. what the client has while the proxy waits for the origin. *)
+Record dcase := { d_cap : N; d_meth : str; d_resp : resp; d_pats : list pat; d_snaps : list N; d_conn : list str }.
+
+(* the relay LTS under the schedule "each read arrives and is read at once": its states at the reads *)
+Fixpoint relay_states (cap : nat) (pats : list pat) (chunked : bool) (s : rstate) (reads : list str) : list rstate :=
+  s :: match reads with
+       | [] => []
+       | d :: r => relay_states cap pats chunked
+                     (relay_run cap pats chunked s [Arrive d; Read (length d - 1)]) r
+       end.
+(* the writes after the last read (modelled Response.Write): last chunk, trailer section *)
+Definition go_tail (meth : str) (r : resp) : list str :=
+  if g_te (go_state meth r) then [b "0" ++ crlf] ++ header_writes [] (final_trailer r) ++ [crlf] else [].
+Fixpoint list_nat_eqb (x y : list nat) : bool :=
+  match x, y with
+  | [], [] => true
+  | a :: x', c :: y' => (a =? c)%nat && list_nat_eqb x' y'
+  | _, _ => false
+  end.
+Definition dcase_model_ok (c : dcase) : bool :=
+  let meth := d_meth c in let r := d_resp c in let g := go_state meth r in
+  let cap := N.to_nat (d_cap c) in let te := g_te g in
+  let sts := relay_states cap (d_pats c) te (relay_init cap (d_pats c) (go_head_writes meth r)) (reads_of r) in
+  let fin := relay_finish cap (d_pats c) (last sts (relay_init cap (d_pats c) [])) (go_tail meth r) in
+  negb (g_head g) && (te || (g_cl g =? -1)%Z) &&
+  (* the LTS's writes are the writes of the (gcases-checked) model of Response.Write *)
+  list_str_eqb (go_writes meth r) (go_head_writes meth r ++ flat_map (read_writes te) (reads_of r) ++ go_tail meth r) &&
+  list_str_eqb (rs_reads (last sts (relay_init cap (d_pats c) []))) (reads_of r) &&
+  list_nat_eqb (map (fun s => length (bw_conn (rs_bw s))) sts) (map N.to_nat (d_snaps c)) &&
+  list_str_eqb (bw_conn (rs_bw fin)) (d_conn c).
+
+(* oracle, on the observation alone (the chunked coding is RFC 7230 4.1): at every read the
+   connection holds a prefix of the final bytes; with chunked coding, the head and every earlier
+   read as a complete chunk; in an event stream, at least everything up to the last complete
+   event among the earlier reads; at the end nothing is held back. *)
+Fixpoint head_len (n : nat) (s : str) : nat :=
+  match s with
+  | 13 :: ((10 :: 13 :: 10 :: _) as _r) => n + 4
+  | _ :: r => head_len (S n) r
+  | [] => n
+  end.
+Fixpoint is_prefix (x y : str) : bool :=
+  match x, y with
+  | [], _ => true
+  | a :: x', c :: y' => (a =? c) && is_prefix x' y'
+  | _, [] => false
+  end.
+Fixpoint has_sub (x s : str) : bool :=
+  is_prefix x s || match s with [] => false | _ :: r => has_sub x r end.
+Definition dcase_prop_ok (c : dcase) : bool :=
+  let meth := d_meth c in let r := d_resp c in
+  let wire := concat (d_conn c) in
+  let hl := head_len 0 wire in
+  let te := has_sub (crlf ++ b "Transfer-Encoding: chunked" ++ crlf) (firstn hl wire) in
+  let sse := is_sse (r_hdr r) in
+  (fix go (k : nat) (snaps : list N) {struct snaps} : bool :=
+     match snaps with
+     | [] => true
+     | n :: rest =>
+         let dl := concat (firstn (N.to_nat n) (d_conn c)) in
+         let body := concat (firstn k (reads_of r)) in
+         (if te then (k =? 0)%nat || str_eqb dl (firstn hl wire ++ concat (flat_map chunk_writes (firstn k (reads_of r))))
+          else if sse then
+            match rev (event_ends body) with
+            | e :: _ => (hl + S e <=? length dl)%nat
+            | [] => true
+            end
+          else true) && go (S k) rest
+     end) 0%nat (d_snaps c).
 
 (* ---------------------------------------------------------------- (l) logging must not alter messages *)
 (* The proxy logs bodies (--log-http body); a client reads a large response slowly while other
